@@ -44,9 +44,10 @@ func c17Flip(op token.Token) token.Token {
 }
 
 type c17Atom struct {
-	e  *ast.BinaryExpr
-	op token.Token // normalised: len OP cap   /   cap OP k
-	k  int64       // constant of an enabled-atom
+	param types.Object // non-nil: the length side is this callee parameter (valid while its argument was len(clients))
+	e     *ast.BinaryExpr
+	op    token.Token // normalised: len OP cap   /   cap OP k
+	k     int64       // constant of an enabled-atom
 }
 
 func c17MQTT(c *core.Ctx) {
@@ -110,11 +111,89 @@ func c17MQTT(c *core.Ctx) {
 	c17MQTTTeardown(c, clientsF, brokerT)
 }
 
+// c17MQRoles resolves by role the functions the MQTT rules talk about: removers are the functions
+// that delete from Broker.clients themselves or through a direct same-package callee (removeClient,
+// deleteSession, ... whatever they are called); read loops are the methods of Client that call
+// packets.ReadPacket (the per-connection loop whose exit tears the client down).
+type c17MQRoles struct {
+	removers  map[*types.Func]bool
+	readLoops map[*types.Func]*flow.Func
+}
+
+var c17mqRoles *c17MQRoles
+
+func c17ResolveMQ(c *core.Ctx, clientsF *types.Var) *c17MQRoles {
+	if c17mqRoles != nil {
+		return c17mqRoles
+	}
+	r := &c17MQRoles{removers: map[*types.Func]bool{}, readLoops: map[*types.Func]*flow.Func{}}
+	isDel := func(h *flow.Func, n ast.Node) bool {
+		call, ok := n.(*ast.CallExpr)
+		if !ok || len(call.Args) != 2 {
+			return false
+		}
+		b, ok := h.Callee(call).(*types.Builtin)
+		return ok && b.Name() == "delete" && c17Field(h, call.Args[0]) == clientsF
+	}
+	for _, g := range funcsByRole(c, mq, func(g *flow.Func, fd *ast.FuncDecl) bool { return true }) {
+		fo := c17FuncObj(g)
+		if fo == nil {
+			continue
+		}
+		// own body deletes, or it takes the broker lock and a direct callee deletes (delete moved into a
+		// "...Locked" helper); a function that merely calls a remover on some path is not one
+		own := false
+		ast.Inspect(g.Body, func(n ast.Node) bool {
+			if n != nil && isDel(g, n) {
+				own = true
+			}
+			return !own
+		})
+		locks := false
+		for _, call := range calls(g.Body, false) {
+			if op, _ := c17Mutex(g, call); op == "Lock" {
+				locks = true
+			}
+		}
+		if own || (locks && reachContains(g, 1, isDel)) {
+			r.removers[fo] = true
+		}
+		fd, _ := g.Node.(*ast.FuncDecl)
+		if fd != nil && fd.Recv != nil && len(fd.Recv.List) == 1 {
+			if tv := g.Info.Types[fd.Recv.List[0].Type]; tv.Type != nil && tv.Type.String() == "*"+Mod+mq+".Client" {
+				for _, call := range calls(fd.Body, false) {
+					if co := c17CalleeFunc(g, call); co != nil && co.FullName() == c17Packets+".ReadPacket" {
+						r.readLoops[fo] = g
+					}
+				}
+			}
+		}
+	}
+	c17mqRoles = r
+	return r
+}
+
+func (r *c17MQRoles) isRemover(f *flow.Func, call *ast.CallExpr) bool {
+	fo := c17CalleeFunc(f, call)
+	return fo != nil && r.removers[fo.Origin()] && r.readLoops[fo.Origin()] == nil
+}
+
+func (r *c17MQRoles) isReadLoop(f *flow.Func, call *ast.CallExpr) bool {
+	fo := c17CalleeFunc(f, call)
+	return fo != nil && r.readLoops[fo.Origin()] != nil
+}
+
 // c17MQTTTeardown: the read loop removes the client's entry on every exit, and removeClient
 // deletes the entry under the broker's write lock.
 func c17MQTTTeardown(c *core.Ctx, clientsF *types.Var, brokerT *types.Named) {
-	if f := fn(c, mq, "Client", "readLoop"); f != nil {
-		cons := fname(mq, "Client", "readLoop") + "|every exit removes the client's entry"
+	mqr := c17ResolveMQ(c, clientsF)
+	if len(mqr.readLoops) == 0 {
+		c.Errorf("R-C17-5: anchor: no method of %s.Client calls packets.ReadPacket (the per-connection read loop)", mq)
+	}
+	for _, f := range mqr.readLoops {
+		f := f
+		fd, _ := f.Node.(*ast.FuncDecl)
+		cons := fname(mq, "Client", fd.Name.Name) + "|every exit removes the client's entry"
 		res := analyze(c, f, flow.Config{NoHavoc: true,
 			MayPanic: func(call *ast.CallExpr, callee types.Object) bool {
 				// packet processing runs user pipelines
@@ -124,7 +203,7 @@ func c17MQTTTeardown(c *core.Ctx, clientsF *types.Var, brokerT *types.Named) {
 				switch {
 				case calleeIs(f, call, "(*"+mq+".Client).closeAndDelSession"), calleeIs(f, call, "(*"+mq+".Client).close"):
 					st.Set("ev:c17:closed", flow.True)
-				case calleeIs(f, call, "(*"+mq+".Broker).removeClient"):
+				case mqr.isRemover(f, call):
 					if st.Is("ev:c17:closed", flow.True) {
 						st.Set("ev:c17:removed", flow.True)
 					}
@@ -140,23 +219,8 @@ func c17MQTTTeardown(c *core.Ctx, clientsF *types.Var, brokerT *types.Named) {
 				}
 			}
 			c.Check(ok, "R-C17-5", cons, pos(c, at),
-				sprintf("all %d exits (returns and the panic exit of packet processing) have closed the client and then called Broker.removeClient", len(res.Exits)),
-				"an exit of the read loop does not close the client and then call Broker.removeClient (which deletes only disconnected clients): the entry of a finished connection keeps occupying a maxAllowedConnection slot", witness(badSt)...)
-		}
-	}
-	// removeClient must exist and delete; every delete site of the package is then checked
-	if f := fn(c, mq, "Broker", "removeClient"); f != nil {
-		n := 0
-		for _, g := range reach(f, 3) {
-			for _, call := range calls(g.Body, false) {
-				if b, ok := g.Callee(call).(*types.Builtin); ok && b.Name() == "delete" && len(call.Args) == 2 && c17Field(g, call.Args[0]) == clientsF {
-					n++
-				}
-			}
-		}
-		if n == 0 {
-			c.Violate("R-C17-5", fname(mq, "Broker", "removeClient")+"|deletes the entry under the write lock", pos(c, f.Body),
-				"removeClient never deletes from Broker.clients: entries of closed connections are never released")
+				sprintf("all %d exits (returns and the panic exit of packet processing) have closed the client and then called the broker function that deletes its entry", len(res.Exits)),
+				"an exit of the read loop does not close the client and then call the broker function that deletes its entry from Broker.clients (it deletes only disconnected clients): the entry of a finished connection keeps occupying a maxAllowedConnection slot", witness(badSt)...)
 		}
 	}
 	pkg := c.Prog.Pkg(mq)
@@ -489,6 +553,7 @@ func c17IsBrokerExpr(f *flow.Func, recv ast.Expr, brokerT *types.Named) bool {
 func c17MQTTSiteIn(c *core.Ctx, pkg *packages.Package, f *flow.Func, cons string, ins *ast.AssignStmt, insKey ast.Expr,
 	clientsF, capF *types.Var, brokerT *types.Named, refused constant.Value) {
 	c.Count("functions_analysed", 1)
+	mqr := c17ResolveMQ(c, clientsF)
 	bind := c17NewBind(f, 3)
 	eachNode := func(visit func(n ast.Node) bool) {
 		for _, h := range bind.funcs {
@@ -523,6 +588,22 @@ func c17MQTTSiteIn(c *core.Ctx, pkg *packages.Package, f *flow.Func, cons string
 		}
 		return 0, false
 	}
+	// a predicate helper `atCap(n int) bool { return n >= cap }`: the length arrives as an int parameter
+	// of a reach function other than the root; whether it IS len(clients) is decided per call (OnInline)
+	lenParam := func(e ast.Expr) types.Object {
+		o := c17Obj(f, c17StripConv(f, e))
+		if o == nil {
+			return nil
+		}
+		if _, isP := bind.owner[o]; !isP || bind.isRootParam(o) || bind.pidx[o] < 0 || len(bind.asg[o]) > 0 || bind.dirty[o] {
+			return nil
+		}
+		if b, ok := o.Type().Underlying().(*types.Basic); !ok || b.Info()&types.IsInteger == 0 {
+			return nil
+		}
+		return o
+	}
+	paramEv := func(o types.Object) string { return "ev:c17:param-is-len:" + o.Name() + "@" + f.Pos(o.Pos()) }
 	var roomAtoms, enabledAtoms []c17Atom
 	eachNode(func(n ast.Node) bool {
 		be, ok := n.(*ast.BinaryExpr)
@@ -539,6 +620,10 @@ func c17MQTTSiteIn(c *core.Ctx, pkg *packages.Package, f *flow.Func, cons string
 			roomAtoms = append(roomAtoms, c17Atom{e: be, op: be.Op})
 		case isCap(be.X) && isLenClients(be.Y):
 			roomAtoms = append(roomAtoms, c17Atom{e: be, op: c17Flip(be.Op)})
+		case lenParam(be.X) != nil && isCap(be.Y):
+			roomAtoms = append(roomAtoms, c17Atom{e: be, op: be.Op, param: lenParam(be.X)})
+		case isCap(be.X) && lenParam(be.Y) != nil:
+			roomAtoms = append(roomAtoms, c17Atom{e: be, op: c17Flip(be.Op), param: lenParam(be.Y)})
 		case isCap(be.X):
 			if k, ok := constInt(be.Y); ok {
 				enabledAtoms = append(enabledAtoms, c17Atom{e: be, op: be.Op, k: k})
@@ -598,10 +683,10 @@ func c17MQTTSiteIn(c *core.Ctx, pkg *packages.Package, f *flow.Func, cons string
 		evRemoved  = "ev:c17:entry-removed"
 	)
 	// the inserted value (the client) and the calls that take responsibility for the entry
-	var valObj types.Object
+	valCanon := ""
 	for i, l := range ins.Lhs {
 		if ix, ok := ast.Unparen(l).(*ast.IndexExpr); ok && c17Field(f, ix.X) == clientsF && len(ins.Lhs) == len(ins.Rhs) {
-			valObj = bind.canonObj(ins.Rhs[i])
+			valCanon = bind.canon(ins.Rhs[i])
 		}
 	}
 	room3 := func(st *flow.State) flow.Val {
@@ -609,6 +694,9 @@ func c17MQTTSiteIn(c *core.Ctx, pkg *packages.Package, f *flow.Func, cons string
 			return v
 		}
 		for _, a := range roomAtoms {
+			if a.param != nil && !st.Is(paramEv(a.param), flow.True) {
+				continue
+			}
 			t := c17Truth(f, st, a.e)
 			if t == flow.Unknown {
 				continue
@@ -770,21 +858,31 @@ func c17MQTTSiteIn(c *core.Ctx, pkg *packages.Package, f *flow.Func, cons string
 					return true
 				}
 			}
+			for _, a := range enabledAtoms {
+				if a.e == x {
+					return true
+				}
+			}
 		case *ast.CallExpr:
 			if op, recv := c17Mutex(h, x); op != "" && isBrokerLock(recv) {
 				return true
 			}
+			// the refusal (CONNACK code + write) may live in a helper
+			if fo := c17CalleeFunc(h, x); fo != nil && fo.FullName() == "(*"+c17Packets+".ConnackPacket).Write" {
+				return true
+			}
 			// who takes responsibility for the registered client
-			if calleeIs(h, x, "(*"+mq+".Client).readLoop", "(*"+mq+".Broker).removeClient", "(*"+mq+".Broker).deleteSession") {
+			if mqr.isReadLoop(h, x) || mqr.isRemover(h, x) {
 				return true
 			}
 		}
 		return false
 	})
 	res := analyze(c, f, flow.Config{
+		InlineClosures: true,
 		Inline: func(call *ast.CallExpr, callee *types.Func) *flow.Func {
-			if calleeIs(f, call, "(*"+mq+".Client).readLoop", "(*"+mq+".Broker).removeClient", "(*"+mq+".Broker).deleteSession",
-				"(*"+mq+".Client).closeAndDelSession", "(*"+mq+".Client).close") {
+			if mqr.isReadLoop(f, call) || mqr.isRemover(f, call) ||
+				calleeIs(f, call, "(*"+mq+".Client).closeAndDelSession", "(*"+mq+".Client).close") {
 				return nil // modelled by events
 			}
 			return inl(call, callee)
@@ -827,15 +925,53 @@ func c17MQTTSiteIn(c *core.Ctx, pkg *packages.Package, f *flow.Func, cons string
 						continue
 					}
 					tv := f.Info.Types[as.Rhs[i]]
-					if tv.Value != nil && constant.Compare(tv.Value, token.EQL, refused) {
+					switch {
+					case tv.Value != nil && constant.Compare(tv.Value, token.EQL, refused):
 						st.Set(evCode, flow.True)
-					} else {
+					case tv.Value == nil && (st.Is("eq:"+f.Render(ast.Unparen(as.Rhs[i]))+"=="+refused.ExactString(), flow.True) ||
+						st.Is("ev:c17:param-is-refused-code:"+f.Render(ast.Unparen(as.Rhs[i])), flow.True)):
+						// the code arrives through a parameter / local whose value is known on this path
+						st.Set(evCode, flow.True)
+					default:
 						st.Set(evCode, flow.False)
 					}
 				}
 			}
 		},
 		AfterAssume: func(st *flow.State, cond ast.Expr, outcome bool) { latch(st) },
+		OnInline: func(st *flow.State, ev *flow.InlineEvent) {
+			if !ev.Enter {
+				latch(st)
+				return
+			}
+			for i, pid := range ev.Params {
+				o := c17Obj(f, pid)
+				// a constant argument (the CONNACK code handed to a refuse(code) helper)
+				if o != nil && i < len(ev.Args) {
+					if tv := f.Info.Types[ev.Args[i]]; tv.Value != nil && tv.Value.Kind() == constant.Int {
+						if constant.Compare(tv.Value, token.EQL, refused) {
+							st.Set("ev:c17:param-is-refused-code:"+f.Render(pid), flow.True)
+						} else {
+							st.Set("ev:c17:param-is-refused-code:"+f.Render(pid), flow.False)
+						}
+					}
+				}
+				isLenP := false
+				for _, a := range roomAtoms {
+					if a.param != nil && a.param == o {
+						isLenP = true
+					}
+				}
+				if !isLenP || i >= len(ev.Args) {
+					continue
+				}
+				if isLenClients(ev.Args[i]) {
+					st.Set(paramEv(o), flow.True)
+				} else {
+					st.Set(paramEv(o), flow.False)
+				}
+			}
+		},
 		OnCall: func(st *flow.State, call *ast.CallExpr, callee types.Object, deferred bool) {
 			latch(st)
 			if op, recv := c17Mutex(f, call); op != "" && isBrokerLock(recv) {
@@ -857,15 +993,18 @@ func c17MQTTSiteIn(c *core.Ctx, pkg *packages.Package, f *flow.Func, cons string
 					st.Set(evRefused, flow.True)
 				}
 			}
+			if mqr.isReadLoop(f, call) {
+				st.Set("ev:c17:served", flow.True)
+			}
 			if !st.Is(evInserted, flow.True) {
 				return
 			}
 			switch {
-			case calleeIs(f, call, "(*"+mq+".Client).readLoop"):
-				if sel, ok := ast.Unparen(call.Fun).(*ast.SelectorExpr); ok && (valObj == nil || bind.canonObj(sel.X) == valObj) {
+			case mqr.isReadLoop(f, call):
+				if sel := c17CallSel(f, call); sel != nil && (valCanon == "" || bind.canon(sel.X) == valCanon) {
 					st.Set(evRan, flow.True)
 				}
-			case calleeIs(f, call, "(*"+mq+".Broker).removeClient"), calleeIs(f, call, "(*"+mq+".Broker).deleteSession"):
+			case mqr.isRemover(f, call):
 				st.Set(evRemoved, flow.True)
 			default:
 				if b, ok := callee.(*types.Builtin); ok && b.Name() == "delete" && len(call.Args) == 2 && c17Field(f, call.Args[0]) == clientsF {
@@ -895,6 +1034,9 @@ func c17MQTTSiteIn(c *core.Ctx, pkg *packages.Package, f *flow.Func, cons string
 		}
 		if st.Is(evFull, flow.True) && !st.Is(evInserted, flow.True) {
 			nFull++
+			if st.Is("ev:c17:served", flow.True) && badRef == nil {
+				badRef, badRefAt = &bad{st, "the client that found the table full (and was not registered) is nevertheless handed to its read loop: it is served beyond maxAllowedConnection instead of being refused"}, ex.At
+			}
 			if !st.Is(evRefused, flow.True) && badRef == nil {
 				badRef, badRefAt = &bad{st, "the edge that found the client table full ends without writing a CONNACK whose return code is ErrRefusedServerUnavailable: the client beyond the cap is not refused with server-unavailable"}, ex.At
 			}
